@@ -14,9 +14,10 @@ import (
 )
 
 type matcherCase struct {
-	Cfg   drvCfg
-	Ops   []drvOp
-	Steps []drvStep
+	Cfg    drvCfg
+	Ops    []drvOp
+	Steps  []drvStep
+	Judged []string // oracle's verdicts on the implementation's accepted outcomes
 }
 
 // mutateCfg returns a configuration of ANOTHER run that differs from c in exactly one identifying
